@@ -283,9 +283,9 @@ theorem wildFactsN_of {ft : Feat} {Γ : Ctx} {m : XmlMeta} {ci : ClassInfo} {wv 
     WildFactsN m wv ∧ fieldAgreesN ci wv = true := by
   simp only [wildVarOK, Bool.and_eq_true, decide_eq_true_eq, Bool.not_eq_true',
     Option.isNone_iff_eq_none, List.isEmpty_iff] at hok
-  obtain ⟨⟨⟨⟨⟨⟨⟨⟨⟨⟨⟨⟨⟨⟨⟨⟨⟨h1, h2⟩, h3⟩, h4⟩, h5⟩, h6⟩, h7⟩, h8⟩, h9⟩, h10⟩, h11⟩, h12⟩, h13⟩, h14⟩, h15⟩,
+  obtain ⟨⟨⟨⟨⟨⟨⟨⟨⟨⟨⟨⟨⟨⟨⟨⟨h1, h3⟩, h4⟩, h5⟩, h6⟩, h7⟩, h8⟩, h9⟩, h10⟩, h11⟩, h12⟩, h13⟩, h14⟩, h15⟩,
     h16⟩, _⟩, h18⟩ := hok
-  refine ⟨⟨?_, h2, h3, h4, h5, h6, h7, h8, h9, h10, h11, h12, h13, ?_, h15, h16, hw, MF.choices⟩, h18⟩
+  refine ⟨⟨?_, h3, h4, h5, h6, h7, h8, h9, h10, h11, h12, h13, ?_, h15, h16, hw, MF.choices⟩, h18⟩
   · simpa [VarCore.isWildcard] using h1
   · intro h; rw [h] at h14; simp at h14
 
